@@ -125,8 +125,29 @@ pub fn observe(built: bool, result: &str, log: &[LogEntry]) -> String {
         }
     }
     let head_eof = heads.iter().any(|h| h.contains("/eof=1/"));
+    // flow-control credit handed to the client's request-body source (`consume`): never ahead of what was read from it
+    let (mut read2, mut rel2, mut over) = (0usize, 0usize, None);
+    for e in log {
+        if e.dir != 2 {
+            continue;
+        }
+        if e.call == "read" {
+            if let Some(h) = e.resp.strip_prefix("chunk:") {
+                read2 += if h == "-" { 0 } else { h.len() / 2 };
+            }
+        } else if let Some(n) = e.call.strip_prefix("consume:").and_then(|x| x.parse::<usize>().ok()) {
+            rel2 += n;
+            if rel2 > read2 && over.is_none() {
+                over = Some((rel2, read2));
+            }
+        }
+    }
+    let rel = match over {
+        Some((r, d)) => format!("over:{}>{}", r, d),
+        None => rel2.to_string(),
+    };
     format!(
-        "req={} reqeof={} interim=[{}] head=[{}] body={} ceof={}",
+        "req={} reqeof={} interim=[{}] head=[{}] body={} ceof={} rel={}",
         hex(&req),
         (req_eof > 0) as u8,
         interim.join(","),
@@ -137,6 +158,7 @@ pub fn observe(built: bool, result: &str, log: &[LogEntry]) -> String {
             (None, true) => "head".to_string(),
             (None, false) => "none".to_string(),
         },
+        rel,
     ) + &{
         let _ = (result, eofs);
         String::new()
